@@ -177,6 +177,8 @@ main(void)
     fs_fail_open_at = ND(int8_t);
     fs_fail_pwrite_at = ND(int8_t);
     fs_fail_pwrite_from = ND(int8_t);
+    fs_fail_flock_at = ND(int8_t);
+    VASSUME(fs_fail_flock_at >= -1 && fs_fail_flock_at <= 2);
     VASSUME(fs_fail_open_at >= -1 && fs_fail_open_at <= 4);
     VASSUME(fs_fail_pwrite_at >= -1 && fs_fail_pwrite_at <= 6);
     VASSUME(fs_fail_pwrite_from >= -1 && fs_fail_pwrite_from <= 6);
